@@ -674,7 +674,11 @@ impl<'p, 's, M: Matcher, W: WriteColor> Sink for SummarySink<'p, 's, M, W> {
             )?;
             count
         };
-        if is_multi_line {
+        // When inverted, the lines reported here are precisely the ones
+        // without a match, so counting the matches in them would always give
+        // zero. Inverted matches are reported line by line, even in
+        // multi-line mode, so count lines in that case.
+        if is_multi_line && !searcher.invert_match() {
             self.match_count += sink_match_count;
         } else {
             self.match_count += 1;
